@@ -168,6 +168,11 @@ func (ir *ifdReader) readIfdHeader(ifd ifds.Ifd) (err error) {
 	return ir.readNextIfdTag(ifd)
 }
 
+// maxValueLength is the largest tag value read from a reader that is not
+// buffered; it matches what Peek on the 4 KiB bufio.Readers used by the other
+// decode paths can deliver.
+const maxValueLength = 4096
+
 // BufferedReader interface represents bufio.Reader
 type BufferedReader interface {
 	Peek(n int) ([]byte, error)
@@ -302,11 +307,17 @@ func (ir *ifdReader) fastRead(n int) (buf []byte, err error) {
 		ir.po += uint32(n)
 		return
 	}
-	if n < 0 || n > len(ir.buffer.buf) {
+	if n < 0 || n > maxValueLength {
 		return nil, imagetype.ErrDataLength
 	}
+	buf = ir.buffer.buf[:]
+	if n > len(buf) {
+		// larger than the pooled scratch buffer: read into a temporary one, up
+		// to the value size a buffered reader supports
+		buf = make([]byte, n)
+	}
 	// a single Read may legally return fewer bytes than asked for
-	n, err = io.ReadFull(ir.reader, ir.buffer.buf[:n])
+	n, err = io.ReadFull(ir.reader, buf[:n])
 	ir.po += uint32(n)
 	if err != nil {
 		if ir.logLevelError() {
@@ -314,7 +325,7 @@ func (ir *ifdReader) fastRead(n int) (buf []byte, err error) {
 		}
 		return nil, err
 	}
-	return ir.buffer.buf[:n], nil
+	return buf[:n], nil
 }
 
 // ReadUint16 reads a uint16 from an ifdReader.
